@@ -54,7 +54,7 @@ structure TreeCtx where
 /-- Prefix-notation tree, tokens separated by `,`:
 `S` sum, `C` comp, `P` pwprod (2 children); `V:vec` vecsum, `l:c` lscal, `r:c` rscal,
 `lv:vec` lvec, `rv:vec` rvec, `fl:vec` FunctionalLeftVectorMult (1 child); leaves `scal:c`,
-`const:vec`, `mult:vec`, `pow:p`, `zero`, `modsq`, `real` (RealPart on a real space: returns
+`const:vec`, `mult:vec`, `pow:p`, `zero`, `modsq`, `accum:c` (protocol-abiding, NOT alias-safe synthetic leaf), `real` (RealPart on a real space: returns
 its argument), `inner:vec` (InnerProductOperator, a functional), `fmult:vec` (MultiplyOperator
 with a field domain), `prox:ID:FLAGS`. Vectors are `|`-separated bit patterns. -/
 partial def parseTree (cx : TreeCtx) : List String → Option (Op Float × List String)
@@ -91,6 +91,7 @@ partial def parseTree (cx : TreeCtx) : List String → Option (Op Float × List 
     | ["pow", p] => do
         let p ← parseBits p
         some (.leaf (powLeaf (floatFns 1 1 1.0 p).pow), rest)
+    | ["accum", c] => do let c ← parseBits c; some (.leaf (accumLeaf c), rest)
     | ["zero"] => some (.leaf zeroLeaf, rest)
     | ["modsq"] => some (.leaf modSqLeaf, rest)
     | ["prox", name, flags] => do
